@@ -1,6 +1,7 @@
 package main
 
 import (
+	"sync"
 	"fmt"
 	"go/types"
 	"os"
@@ -27,6 +28,8 @@ type Program struct {
 	ContractFiles map[string][]string
 	globalInit    map[*ssa.Global]*globalInit
 	unstable      map[*ssa.Global]bool
+	facets        []ifaceFacet
+	facetOnce     sync.Once
 }
 
 func repoDir() string {
